@@ -250,21 +250,29 @@ m = {
 }
 # additions of the end of session 4 (seventh round of seeded changes), appended to the level text
 LATE = {
-    "C01": "Also: health-check paths that are not plain absolute paths and a slow Debug-level log sink (log calls as scheduling points) are generated; "
-           "every applied probe result must be backed by a probe sent to that target's own address.",
+    "C01": "Also: health-check paths that are not plain absolute paths, a slow Debug-level log sink (log calls as scheduling points) and deploy "
+           "timeouts of zero are generated; monitor corr/C01probe.c01_probe_backed_ok (every applied probe result is backed by a probe sent to "
+           "that target's own address; sound and complete w.r.t. its counting specification, props/C01probe.v); the model's probe_next / "
+           "next_idx are proved equal to definitions regenerated from target.go / load_balancer.go on every run (harness/gofacts, "
+           "coq/corr/GenTie.v.in).",
     "C05": "Also: monitor corr/C05cmd.c05_refusal_ok (a host-in-use refusal needs a real conflict in the commanded table, a success needs none); "
            "link theorems props/C05cmd.v.",
     "C06": "Also: commands that fail because another command got in between, under the real scheduler (harness/c06_race_test.go): the failed "
            "command's targets are no longer probed and the targets the table still holds still are.",
-    "C08": "Also: custom error pages replaced in place between deploys (the page of the service's own latest deploy is the one rendered) and many "
-           "answers at once under the real scheduler (harness/c08_race_test.go), both judged by corr/C08held.c08_held_bad.",
+    "C08": "Also: custom error pages replaced in place between deploys - model/Pages.v, theorems props/C08pages.v (the page is that of the "
+           "service's latest deploy, a stop holds across redeploys), correspondence corr/C08pages.c08_pages_bad on directed and random histories; "
+           "many answers at once and requests held by a pause when two stops arrive together, under the real scheduler "
+           "(harness/c08_race_test.go), judged by corr/C08held.c08_held_bad.",
     "C09": "Also: monitors corr/C09rot.c09_excl_ok (a failing result applied while the target is in the rotation is followed by a rebuild without it) "
            "and c09_handoff_ok (a picked target takes the request or refuses it as draining before the answer); targets that refuse connections "
-           "between two checks.",
+           "between two checks; link theorems props/C09excl.v (M5lb accepted => c09_excl_ok under c09_excl_side; M5full accepted => "
+           "c09_handoff_ok); the acceptor's probe rule was tightened (reported previous state = model state); source-translation tie as for C01.",
     "C10": "Also: health changes of a side (corr/C10health.v, props/C10health.v) and the same decisions made by 8 goroutines at once.",
     "C11": "Also: a snapshot taken during an outage, a wildcard-TLS root service beside a sub-path service; the held time of a request is compared "
            "between the run with and the run without the restart.",
-    "C12": "Also: the state file is read at every file-system step of a restart (corr/C12fault.v).",
+    "C12": "Also: the state file is read at every file-system step of a restart (corr/C12fault.v); bursts of overlapping commands with long "
+           "snapshots and inert hooks (file vs configuration in force after every round); the built binary restarted on a large saved state "
+           "with a client command sent the moment the command socket exists.",
     "C14": "Also: the target's own Content-Type spellings (event streams with sloppy parameters, near misses), decided by "
            "corr/C14corr.event_stream_of on the string.",
     "C15": "Also: clients that are gone when their error page is written (nothing of an undeliverable page may reach a later client).",
